@@ -105,12 +105,18 @@ def extract_all(root, units=None):
     return cdir, key
 
 
-def _prune_cache(base, keep, maxdirs=4):
+def _prune_cache(base, keep, max_age_s=3 * 3600, maxdirs=40):
+    """Remove fact caches that are old; never one that a concurrent run may be using (recent ones are kept)."""
+    import shutil
+    now = time.time()
     ds = [os.path.join(base, d) for d in os.listdir(base)]
     ds = [d for d in ds if os.path.isdir(d) and d != keep]
     ds.sort(key=os.path.getmtime)
-    import shutil
-    while len(ds) >= maxdirs:
+    for d in ds:
+        if now - os.path.getmtime(d) > max_age_s:
+            shutil.rmtree(d, ignore_errors=True)
+    ds = [d for d in ds if os.path.isdir(d)]
+    while len(ds) > maxdirs:
         shutil.rmtree(ds.pop(0), ignore_errors=True)
 
 
